@@ -56,7 +56,7 @@ fn default_runs(prop: &str, tier: &str) -> u64 {
         "C11" => 30_000,
         "C12" => 60_000,
         "C13" => 50_000,
-        "C14" => 50_000,
+        "C14" => 40_000,
         "C16" => 36_000,
         "C17" => 20_000,
         _ => 4_000,
